@@ -409,7 +409,8 @@ def vanished (rows : List SnapRow) (poison : List Ip) (l : List LiveS) : List Ip
     end with nothing but a NOTIFICATION. -/
 def openOk (s : LiveS) : Res → Bool
   | .discOpen asn hold _ caps reply =>
-      asn = s.cfg.localAsn && hold = s.cfg.hold && caps = s.cfg.caps
+      -- the hold time is the configured one as far as the two-octet field can carry it
+      asn = s.cfg.localAsn && (hold = s.cfg.hold || decide (s.cfg.hold > 65535)) && caps = s.cfg.caps
   | .discNotif .. => s.closing
   | _ => false
 
@@ -540,10 +541,11 @@ def checkHistOn (gl : GlobalCfg) (groups : List Group) (peers : List PeerCase) (
   the first time it is given (giving it again changes nothing, whatever the answer).
 
   A neighbour given through the API carries `hold_time` (0 = not set: the default of 180 s applies)
-  and per family a send-max (0 = no add-path send).  A hold time of 1 or 2 s, or one that does not fit
-  the two-octet OPEN field, is not a hold time (RFC 4271 §4.2): such a neighbour must be refused.
-  Whether a neighbour without expected AS and without group, or with a send-max above 255, is taken
-  is left to the implementation: when it is taken it is judged like any other. -/
+  and per family a send-max (0 = no add-path send).  The property text says nothing about refusing a
+  request: whether a neighbour with a hold time of 1 or 2 s or one that does not fit the two-octet
+  OPEN field, without expected AS and without group, or with a send-max above 255 is taken is left to
+  the implementation.  When it is taken it is judged like any other neighbour: its session's hold
+  time is the configured value (as far as the wire can carry it). -/
 
 def checkNetFlags (k : Nat) : List Net → List Net → List Bool → Verdict
   | [], _, [] => .ok
@@ -563,14 +565,14 @@ def checkNets : List Group → List (List Bool) → Verdict
 def prefixesOf (g : Group) : Group := { g with nets := g.nets.filter maskInRange }
 
 inductive ApiClass where
-  | valid | mustRefuse | mayRefuse
+  | valid | mayRefuse
   deriving DecidableEq
 
 def holdTimeOk (h : Nat) : Bool := h = 0 || (3 ≤ h && h ≤ 65535)
 
 def apiClass (pc : PeerCase) : ApiClass :=
   if !pc.api then .valid
-  else if !holdTimeOk pc.params.hold then .mustRefuse
+  else if !holdTimeOk pc.params.hold then .mayRefuse
   else if pc.params.expected = 0 && pc.group.isNone then .mayRefuse
   else if pc.params.sm.any (fun e => e.2 > 255) then .mayRefuse
   else .valid
@@ -585,25 +587,22 @@ def apiReading (pc : PeerCase) : PeerCase :=
       sm := pc.params.sm.filter fun e => e.2 > 0 } }
 
 /-- the neighbours that are configured, with their `added` answers; a refused API neighbour is not -/
-def apiSplit : List PeerCase → List Bool → Option (Option (List PeerCase × List Bool))
-  | [], [] => some (some ([], []))
+def apiSplit : List PeerCase → List Bool → Option (List PeerCase × List Bool)
+  | [], [] => some ([], [])
   | pc :: t, f :: fl =>
       match apiSplit t fl with
       | none => none
-      | some none => some none
-      | some (some (ps, fs)) =>
+      | some (ps, fs) =>
           match apiClass pc with
-          | .valid => some (some (apiReading pc :: ps, f :: fs))
-          | .mustRefuse => if f then some none else some (some (ps, fs))
-          | .mayRefuse => if f then some (some (apiReading pc :: ps, f :: fs)) else some (some (ps, fs))
+          | .valid => some (apiReading pc :: ps, f :: fs)
+          | .mayRefuse => if f then some (apiReading pc :: ps, f :: fs) else some (ps, fs)
   | _, _ => none
 
 def checkHist (gl : GlobalCfg) (groups : List Group) (peers : List PeerCase) (ops : List Op) (h : HistObs) : Verdict :=
   (checkNets groups h.netsAdded).andThen fun _ =>
     match apiSplit peers h.added with
     | none => .fail 0 "setup-length"
-    | some none => .fail 0 "neighbour-with-invalid-hold-time-added"
-    | some (some (ps, fs)) => checkHistOn gl (groups.map prefixesOf) ps ops ⟨fs, h.setup, h.steps⟩
+    | some (ps, fs) => checkHistOn gl (groups.map prefixesOf) ps ops ⟨fs, h.setup, h.steps⟩
 
 def check : Case → Obs → Verdict
   | .neg l r sm, .neg o => checkNeg l r sm o
